@@ -1578,7 +1578,7 @@ func lzfOverlapRule(c *Ctx, r *Result, rule string) {
 		}
 	}
 	if n < 2 {
-		r.Errorf(rule+": lzfDecompress implementations not found")
+		r.Errorf(rule + ": lzfDecompress implementations not found")
 	}
 	r.Floor(rule, 2)
 }
